@@ -795,12 +795,15 @@ impl StaticsArena {
         annotations.sort_unstable();
         annotations.dedup();
 
-        let normalized = annotations
-            .iter()
-            .map(|annotation| {
-                self.normalized_at(*annotation).cloned().expect("top annotation was not normalized")
+        // An annotation that is still an unsolved inference hole has no normal
+        // form; the check is rejected with a missing-solution report, so the
+        // annotation is simply not retained.
+        let (annotations, normalized) = annotations
+            .into_iter()
+            .filter_map(|annotation| {
+                self.normalized_at(annotation).cloned().map(|normal| (annotation, normal))
             })
-            .collect();
+            .unzip();
         self.annotation_norms = NormalizedAnnotations::with_parallel(annotations, normalized);
     }
 
